@@ -46,8 +46,9 @@ pub fn gen_case(rng: &mut Rng, thorough: bool) -> CorruptCase {
     positions: rng.chance(1, 2),
     ids: 2 + rng.usize(3),
     transparent: false,
+    odd_ids: rng.chance(1, 4),
   };
-  let ids: Vec<String> = (0..cfg.ids).map(|i| format!("d{}", i)).collect();
+  let ids: Vec<String> = id_names(&cfg);
   let mut ver = 1u64;
   let mut ops = vec![Op::NewWriter { h: 0 }];
   let commits = 1 + rng.usize(3);
